@@ -131,7 +131,7 @@ func c15Request(c *Ctx) {
 		if p.chunked {
 			rd = struct{ io.Reader }{rd}
 		}
-		req, _ := http.NewRequest(pick(r, []string{"POST", "PUT", "POST"}), srv.URL+"/", rd)
+		req, _ := http.NewRequest(pick(r, []string{"POST", "PUT", "POST", "OPTIONS", "PATCH", "DELETE"}), srv.URL+"/", rd)
 		ctype := pick(r, []string{"application/octet-stream", "application/x-www-form-urlencoded", ""})
 		if ctype != "" {
 			req.Header.Set("Content-Type", ctype)
@@ -219,7 +219,7 @@ func c15Response(c *Ctx) {
 			if sz < 0 {
 				continue
 			}
-			for _, ch := range []int{0, 1, 7, 333, 70000, -1} { // -1: the whole body with io.Copy from a plain reader
+			for _, ch := range []int{0, 1, 7, 333, 70000, -1, -2} { // -1: the whole body with io.Copy from a plain reader; -2: one write larger than the maximum first, then small ones
 				for _, sp := range []string{"", "", "cl0", "grpc", "panic", "hijack", "retry", "badstatus"} {
 					st := 200
 					meth := "GET"
@@ -251,6 +251,18 @@ func c15Response(c *Ctx) {
 		full := bytes.Repeat(marker, int(p.Size)/4+1)[:p.Size]
 		writeBody := func(w io.Writer) {
 			chunk := int64(p.Chunk)
+			if chunk == -2 {
+				// a first write that alone exceeds the maximum (refused whole), then small writes that fit but together pass
+				// the memory threshold
+				if p.Max > 0 {
+					_, _ = w.Write(bytes.Repeat(marker, int(p.Max)/4+30))
+				}
+				small := int(p.Mem/2) + 1
+				for k := 0; k < 4; k++ {
+					_, _ = w.Write(bytes.Repeat(marker, small/4+1)[:small])
+				}
+				return
+			}
 			if chunk < 0 {
 				// the way http.ServeContent, file servers and relays write (uses the writer's ReadFrom when it has one)
 				_, _ = io.Copy(w, struct{ io.Reader }{bytes.NewReader(full)})
@@ -344,6 +356,9 @@ func c15Response(c *Ctx) {
 			}
 		}
 		over := p.Max > 0 && p.Size > p.Max
+		if p.Chunk == -2 {
+			over = p.Max > 0 // the first write alone exceeds the maximum
+		}
 		expectBodyKind := p.Method != "HEAD" && p.Status != 204 && p.Status != 304 && p.Special != "cl0" && p.Special != "grpc"
 		if over && p.Special != "hijack" && p.Special != "panic" && p.Special != "badstatus" {
 			c.Count("over_limit_responses", 1)
@@ -355,7 +370,7 @@ func c15Response(c *Ctx) {
 				c.Violation("response/over-limit-status", sfmt("response body of %d bytes exceeds the maximum %d but the client got status %d", p.Size, p.Max, status), p)
 				return
 			}
-		} else if p.Special == "" && expectBodyKind && !over {
+		} else if p.Special == "" && expectBodyKind && !over && p.Chunk != -2 {
 			// within the limit: status and full body must arrive (details are C07's; here only as sanity of the grid point)
 			var gotBody []byte
 			if resp, err := http.ReadResponse(bufio.NewReader(bytes.NewReader(raw)), nil); err == nil {
@@ -387,7 +402,7 @@ func c15Response(c *Ctx) {
 		mu.Lock()
 		sp := spilled
 		mu.Unlock()
-		if !over && p.Size > p.Mem && (p.Special == "" || p.Special == "cl0" || p.Special == "grpc") {
+		if !over && p.Chunk != -2 && p.Size > p.Mem && (p.Special == "" || p.Special == "cl0" || p.Special == "grpc") {
 			// a response beyond the in-memory threshold is on disk by the time the handler has written it
 			c.Count("response_spill_expected_and_checked", 1)
 			if !sp {
